@@ -50,6 +50,7 @@ type Contract struct {
 	Logical  [][2]string // logical (universally quantified) variables: name, type text
 	TrustedFrame bool // the modifies clause is used by callers but not checked on the body (listed as assumption)
 	AssumeFresh []string // callee expression texts whose calls return freshly allocated values and modify nothing
+	AssumeValueOrError []string // callee expression texts whose calls return a non-nil first result whenever their last (error) result is nil
 	PerIter    []string // captured variables of a closure that must be fresh in every iteration of the loop creating it
 	Calls      []string // function-valued parameters the function may invoke (their frames are part of this one's)
 	AssumePure []string // callee expression texts whose calls (through function values) are assumed pure
@@ -105,7 +106,7 @@ type Contracts struct {
 	Scope   map[string]string // package path -> file whose imports are visible to spec/ghost/lemma declarations
 }
 
-var clauseHead = regexp.MustCompile(`^(scope|func|iface|realfloat|per_iteration|calls|assume_pure|assume_fresh|trusted_frame|logical|pure_heap|pure|inline|trusted|nopanic|requires|ensures|modifies|loop|capture|assert@|ghost|spec|global|lemma)\b`)
+var clauseHead = regexp.MustCompile(`^(scope|func|iface|realfloat|per_iteration|calls|assume_pure|assume_fresh|assume_value_or_error|trusted_frame|logical|pure_heap|pure|inline|trusted|nopanic|requires|ensures|modifies|loop|capture|assert@|ghost|spec|global|lemma)\b`)
 var labelRe = regexp.MustCompile(`^\[([^\]]+)\]\s*`)
 
 func parseContracts(repo string) (*Contracts, error) {
@@ -273,6 +274,8 @@ func (cs *Contracts) parseFile(file, pkgPath string) error {
 				cur.Logical = append(cur.Logical, [2]string{f[0], f[1]})
 			case "trusted_frame":
 				cur.TrustedFrame = true
+			case "assume_value_or_error":
+				cur.AssumeValueOrError = append(cur.AssumeValueOrError, strings.ReplaceAll(rest, " ", ""))
 			case "assume_fresh":
 				cur.AssumeFresh = append(cur.AssumeFresh, strings.ReplaceAll(rest, " ", ""))
 			case "calls":
